@@ -76,6 +76,32 @@ def forest_packed(forest, pkeys):
     return out, len(seen)
 
 
+def forest_links(forest, pkeys):
+    """Per reachable link: ((sym,start,end), set of (prod key, child spans))."""
+    out = []
+    seen = set()
+    st = [forest.result]
+    while st:
+        par = st.pop()
+        if id(par) in seen:
+            continue
+        seen.add(id(par))
+        alts = set()
+        key = None
+        for poss in par.possibilities:
+            if poss.is_nonterm():
+                key = (poss.production.symbol.name, par.start_position, par.end_position)
+                spans = []
+                for c in poss.children:
+                    p0 = c.possibilities[0]
+                    spans.append(((p0.symbol.name if p0.is_term() else p0.production.symbol.name), c.start_position, c.end_position))
+                    st.append(c)
+                alts.add((pkeys[poss.production.prod_id], tuple(spans)))
+        if key is not None:
+            out.append((key, alts))
+    return out
+
+
 def sppf_validate(forest, pg, pkeys, start_name, text_len):
     """C01 packed form of 'every obtainable tree is a derivation': local
     validity of every reachable packed alternative."""
